@@ -124,16 +124,33 @@ def audit_axioms(theorems: Sequence[str], imports: Sequence[str], tag: str) -> d
 
 
 class Driver:
-    """Batch client for `lake env lean --run Driver.lean`."""
+    """Batch client for the line-protocol driver. Each property runs its own generated driver
+    (lean/drivers/<Prop>.lean importing only the handler modules it needs), so a broken file of
+    another property cannot take this property's check down."""
 
-    def __init__(self) -> None:
+    def __init__(self, modules: Sequence[str] = ()) -> None:
         self.calls = 0
+        self.modules = list(modules)
+
+    def _driver_file(self) -> str:
+        if not self.modules:
+            return "Driver.lean"
+        name = "_".join(self.modules)
+        rel = f"drivers/{name}.lean"
+        body = "".join(f"import Kopf.Drv.{m}\n" for m in self.modules) + "import Kopf.Drv.Main\n"
+        body += "def main : IO Unit := Kopf.Drv.runDriver [" + ", ".join(f"Kopf.Drv.{m}.handle" for m in self.modules) + "]\n"
+        write_generated(rel, body)
+        return rel
+
+    def build_targets(self) -> list[str]:
+        return [f"Kopf.Drv.{m}" for m in self.modules] + ["Kopf.Drv.Main"] if self.modules else ["Kopf.Drv.All"]
 
     def ask(self, requests: Sequence[Any], timeout: int = 1800) -> list[Any]:
         if not requests:
             return []
         payload = "".join(json.dumps(r, ensure_ascii=False, separators=(",", ":")) + "\n" for r in requests)
-        p = _run(["lake", "env", "lean", "--run", "Driver.lean"], timeout=timeout, input=payload)
+        rel = self._driver_file()
+        p = _run(["lake", "env", "lean", "--run", rel], timeout=timeout, input=payload)
         if p.returncode != 0:
             raise LeanError("driver failed", p.stdout[-4000:] + p.stderr[-4000:])
         outs = [json.loads(l) for l in p.stdout.splitlines() if l.startswith("[")]
